@@ -119,7 +119,7 @@ def miri_layer(ctx, jobs, pid=None, workers=16):
         e = ctx["env_base"]()
         e["MIRIFLAGS"] = MIRIFLAGS
         cmd = ["cargo", "+nightly", "miri", "run", "--offline", "-p", "vcore", "--"] + argv + ["--tier", ctx["tier"], "--seed", str(ctx["seed"]), "--out", out]
-        rc, so, se, secs = ctx["run"](cmd, timeout=3 * 3600, env=e)
+        rc, so, se, secs = ctx["run"](cmd, timeout=(3 * 3600 if ctx["tier"] == "thorough" else 1500), env=e)
         if rc is None:
             return ("timeout", argv, None, se)
         if rc == 0 and os.path.exists(out):
@@ -147,7 +147,7 @@ def miri_layer(ctx, jobs, pid=None, workers=16):
             else:
                 reports.append(_san_report(pid, "miri", argv, se))
         elif status == "timeout":
-            inconcl.append(f"watchdog: Miri run `{' '.join(argv)}` exceeded 3 h")
+            inconcl.append(f"watchdog: Miri run `{' '.join(argv)}` exceeded its wall-clock limit")
         else:
             inconcl.append(f"Miri run `{' '.join(argv)}` ended abnormally: {se[-300:]}")
     lr = _layer_result(ctx, "miri (cargo +nightly miri run, " + MIRIFLAGS + ")", len(jobs), cases, reports,
@@ -344,7 +344,7 @@ def c02_steps(ctx):
                 mj = []
                 for i in range(16):
                     fam = ["grid", "withlang", "tokens", "mutations"][i % 4]
-                    n = {"grid": 460, "withlang": 25, "tokens": 580, "mutations": 500}[fam]
+                    n = {"grid": 461, "withlang": 25, "tokens": 581, "mutations": 501}[fam]
                     mj.append(["c02w", "--family", fam, "--shard", str(i), "--nshards", str(n), "--lean"])
                 layer_out.extend(miri_layer(ctx, mj, pid="C02"))
                 aj = []
@@ -353,8 +353,9 @@ def c02_steps(ctx):
                 layer_out.extend(asan_layer(ctx, aj, pid="C02"))
             else:
                 seed = ctx["seed"]
-                mj = [["c02w", "--family", "grid", "--shard", str(seed % 1382), "--nshards", "1382", "--lean"],
-                      ["c02w", "--family", "withlang", "--shard", str(seed % 74), "--nshards", "74", "--lean"],
+                # odd shard counts so that consecutive picks alternate between the framed / truncated halves of the grid
+                mj = [["c02w", "--family", "grid", "--shard", str(seed % 1381), "--nshards", "1381", "--lean"],
+                      ["c02w", "--family", "withlang", "--shard", str(seed % 73), "--nshards", "73", "--lean"],
                       ["c02w", "--family", "tokens", "--shard", str(seed % 1747), "--nshards", "1747", "--lean"]]
                 layer_out.extend(miri_layer(ctx, mj, pid="C02", workers=3))
         except Exception as e:  # Inconclusive from the build etc.
